@@ -29,10 +29,17 @@ Functional models, proved for all inputs: `_connected_components` (`components_p
 Relational clause: `check_sssr_sound` (with `gauss_rank_sound`) — whatever ring list the checker accepts is a set
 of simple cycles of existing non-coordinate bonds, GF(2)-independent, with |E|−|V|+c members.
 
-**Minimality** ("minimum total size", "size multiset independent of numbering") has no ∀-theorem here: the
-ring list of the implementation is compared per run with `minBasis` (Horton candidates + greedy), whose output is
-certified by the same checker (`min_basis_is_cycle_basis`) — so a *smaller* total size than the implementation's
-is always witnessed by a genuine cycle basis — but that `minBasis` is itself minimum is validated, not proved.
+Round 5: the whole heuristic `_sssr` (`_bfs`, `_make_pid`, `_c_set`, `_rings_filter`, `_connected_rings`, `_get_unique_chord`,
+`_is_condensed_ring`) is modelled in `Model/C06Pid.lean`; for every well-formed graph its model emits only simple cycles of
+the input graph, no ring twice, exactly `rings_count` of them, and never crashes (`sssr_model_rings_are_simple_cycles`,
+`sssr_never_crashes` and the theorems before them).
+
+**Minimality** ("minimum total size", "size multiset independent of numbering") has no ∀-theorem about the heuristic — the
+statement is false of the code (recorded gaps, known finding). It is a per-run verdict of a second proved checker: the
+exchange criterion over GF(2) (`exchange_criterion`, `minimal_wrt_family`, `minimal_wrt_family_iff`), applied to Horton's
+candidate family (`sssr_minimal_wrt_horton`); that some minimum cycle basis is drawn from that family is the explicit, named
+hypothesis `HortonComplete` of `sssr_minimum_of_horton_complete`. The greedy reference `minBasis` (certified by
+`min_basis_is_cycle_basis`) is kept as a cross-check of the verdict.
 -/
 namespace ChythonModel.Props.C06
 open ChythonModel.Model.C06 ChythonModel.Spec.CycleBasis ChythonModel.Proofs.C06
